@@ -72,6 +72,11 @@ pub mod std {
                 ::std::panic::set_hook(hook);
                 return;
             }
+            // the hook slot is a process-global lock in std: other threads may run between two
+            // operations on it (never while panicking: no switch inside a hook)
+            if !::std::thread::panicking() {
+                ::shuttle::thread::yield_now();
+            }
             rt::log(Kind::HookSet, 0, 0);
             rt::with(|st| {
                 st.hook = Some(hook);
@@ -82,6 +87,9 @@ pub mod std {
         pub fn take_hook() -> Box<dyn Fn(&PanicHookInfo<'_>) + Sync + Send + 'static> {
             if !rt::in_run() {
                 return ::std::panic::take_hook();
+            }
+            if !::std::thread::panicking() {
+                ::shuttle::thread::yield_now();
             }
             match rt::with(|st| st.hook.take()) {
                 Some(h) => h,
